@@ -7,7 +7,8 @@ from ..e2e import HEADER, CASE_TYPE, CHECK, MODEL_VIEW, SHARD, CASE_TIMEOUT, obs
 ID = "C17"
 THEOREMS = ["C17_inv", "C17_token_pos", "C17_lines", "C17_lex_error", "C17_node_error_label_pass", "C17_node_error_emit",
             "C17_prefix_line", "C17_prefix_col", "C17_prefix_text", "C17_file_info", "C17_file_info_not_before",
-            "C17_leading_lines", "C17_prefix_only_counts", "C17_rest_tokens", "C17_leading_lines_includes"]
+            "C17_leading_lines", "C17_prefix_only_counts", "C17_rest_tokens", "C17_leading_lines_includes",
+            "C17_eof_token", "C17_eof_token_expression", "C17_eof_trace", "C17_parse_error_locus", "C17_parse_error_token"]
 # model-tie modules whose correspondence is part of this property's check (parts of the model its theorems rest on)
 TIES = ['SCAN', 'PARSE', 'MSG']
 RULE = ("valid generated programs x every top-level line position x erroneous statement kind (undefined symbol in an "
